@@ -148,7 +148,7 @@ Definition kill_blk (s : state) (b : nat) (blk : block) : state :=
   upd_blk s b (mkblock (b_owner blk) (b_size blk) (b_cells blk) false).
 
 Lemma Inv_free_held X s b blk :
-  Inv (b :: X) s -> get_blk s b = Some blk -> (c_trivial cfg = false -> all_raw (b_cells blk) = true) ->
+  Inv (b :: X) s -> get_blk s b = Some blk -> (c_tdtor cfg = false -> all_raw (b_cells blk) = true) ->
   Inv X (kill_blk s b blk).
 Proof.
   intros I Hblk Hraw. assert (Hlt := get_blk_lt _ _ _ Hblk).
